@@ -1,7 +1,13 @@
 //! Conformance drivers (pv-addr). Sub-commands are added per property.
+mod byron;
+mod shelley;
+
 fn main() {
     let args = pv_core::Args::parse();
     match args.cmd.as_str() {
+        "shelley-replay" => shelley::replay(&args),
+        "shelley-trace" => shelley::trace(&args),
+        "byron-trace" => byron::trace(&args),
         other => pv_core::die(&format!("unknown sub-command {other}")),
     }
 }
